@@ -168,6 +168,26 @@ static void late(int l, int spins)
 	for (int i = 0; i < 20 && !vrt_finished(1); i++) step(1);
 }
 
+/* a ring larger than 64 KiB filled completely and drained (indices beyond 16 bits), no interleaving needed */
+static void fill(int l, int st)
+{
+	len = l; start = st;
+	np = 3; nc = 1;
+	pk[0] = 0; pd[0] = 1; pk[1] = 0; pd[1] = 2; pk[2] = 0; pd[2] = 3;
+	ck[0] = 1;
+	reset();
+	/* bulk part outside the contexts: fill to len-3 unread bytes, logged as a Bulk event the specification replays */
+	int bulk = l - 3;
+	for (int i = 0; i < bulk; i++) if (!ringbuf_put(rb, (uint8_t)(i * 7 + 1))) { bulk = -i - 1; break; }
+	printf("{\"e\":\"Bulk\",\"n\":%d,\"r\":%u,\"w\":%u}\n", bulk, *(volatile unsigned *)&rb->readi, *(volatile unsigned *)&rb->writei);
+	while (!vrt_finished(1)) step(1);      /* two more fit, the third must fail */
+	while (!vrt_finished(0)) step(0);
+	int ok = 1, got = 0;
+	for (int i = 0; i < l - 3; i++) { int d = ringbuf_get(rb); if (d != (uint8_t)(i * 7 + 1)) { ok = 0; break; } got++; }
+	int d1 = ringbuf_get(rb), d2 = ringbuf_get(rb), d3 = ringbuf_get(rb);
+	printf("{\"e\":\"Drain\",\"ok\":%d,\"got\":%d,\"tail\":[%d,%d,%d]}\n", ok, got, d1, d2, d3);
+}
+
 int main(void)
 {
 	drv_cmd_t c;
@@ -185,6 +205,8 @@ int main(void)
 			step(drv_arg(&c, 0));
 		else if (drv_is(&c, "Gen"))
 			gen(drv_arg(&c, 0), drv_arg(&c, 1), drv_arg(&c, 2));
+		else if (drv_is(&c, "Fill"))
+			fill(drv_arg(&c, 0), drv_arg(&c, 1));
 		else if (drv_is(&c, "Late"))
 			late(drv_arg(&c, 0), drv_arg(&c, 1));
 		else { fprintf(stderr, "rb_drv: unknown command %s\n", c.tok[0]); return 3; }
